@@ -267,6 +267,15 @@ def rules():
         out.append(R(f"{sec}-definition-not-dict", lambda d, sec=sec: d[sec].__setitem__(first_key(d[sec]), [1, 2]), has))
     for k in ("service_scan_cost", "os_scan_cost", "subnet_scan_cost", "process_scan_cost"):
         out.append(R(f"negative-{k}", lambda d, k=k: d.__setitem__(k, _bad_leaf("real", hi=0, hi_strict=True))))
+    # YAML's `.nan` is a float that is neither inside [0, 1] nor positive nor non-negative: range rules written as
+    # "reject if outside" instead of "accept if inside" let it through (symbolic real leaves cannot take this value)
+    NAN = float("nan")
+    for sec in ("exploits", "privilege_escalation"):
+        has = lambda d, sec=sec: len(d[sec]) > 0
+        out.append(R(f"{sec}-prob-nan", lambda d, sec=sec: d[sec][first_key(d[sec])].__setitem__("prob", NAN), has))
+        out.append(R(f"{sec}-cost-nan", lambda d, sec=sec: d[sec][first_key(d[sec])].__setitem__("cost", NAN), has))
+    out.append(R("scan-cost-nan", lambda d: d.__setitem__("os_scan_cost", NAN)))
+    out.append(R("sensitive-value-nan", lambda d: d["sensitive_hosts"].__setitem__(first_key(d["sensitive_hosts"]), NAN)))
     hc = "host_configurations"
     out.append(R("host-config-missing", lambda d: d[hc].pop(first_key(d[hc]))))
     out.append(R("host-config-superfluous", lambda d: d[hc].__setitem__("(1, 77)", copy.deepcopy(d[hc][first_key(d[hc])]))))
